@@ -2,7 +2,7 @@
 ID = 'C07'
 FUNCTIONS = [('devices', 'DM'), ('devices', 'FIBER'), ('typing', 'electrical_signal.__call__'), ('typing', 'electrical_signal.w'),
              ('typing', 'electrical_signal.__mul__')]
-BOUNDS = {'lengths': 'N in {2,3,4} (quick) / {2,3,4,6} (thorough), exact DFT; one and two polarisations',
+BOUNDS = {'lengths': 'N in {2,3,4} (quick) / {2,3,4,5,6,8} (thorough), exact DFT; one and two polarisations',
           'values': 'every complex field sample, D, D1, D2, beta_2, beta_3 (either sign), alpha >= 0, L, L1, L2 > 0 and the slot rate R symbolic'}
 OUTSIDE = ['other lengths', 'FIBER has no retH option (the retH clause applies to DM)', 'floating-point rounding',
            'the noise component: DM and FIBER pass input.noise through without filtering it (the property speaks of the field)']
@@ -160,9 +160,9 @@ def scen_fiber_filter(env, cfg):
 def configs(tier):
     q = tier == 'quick'
     out = []
-    for n in ((2, 3, 4) if q else (2, 3, 4, 6)):
+    for n in ((2, 3, 4) if q else (2, 3, 4, 5, 6, 8)):
         for pol in (1, 2):
-            if pol == 2 and n > (3 if q else 4):
+            if pol == 2 and n > (3 if q else 5):
                 continue
             out.append((f'dm-n{n}-pol{pol}', scen_dm, dict(n=n, pol=pol), {}))
             if n <= 4:
